@@ -526,6 +526,12 @@ func propC06(t *rapid.T, e *Env) {
 	if err != nil {
 		t.Fatalf("%v", err)
 	}
+	// ... half of the time with hand-built collection values among them: a list or map value that carries no
+	// element type of its own (the attribute types of the target are complete, the value is what a provider
+	// builds by hand: types.List{Null: true})
+	if rapid.Bool().Draw(t, "handbuilt") {
+		stripElemTypes(t, &pre, 0)
+	}
 	pn := ToNode(pre)
 	d, p = rc.CopyTo(x, &pre)
 	if p != "" {
@@ -541,6 +547,38 @@ func propC06(t *rapid.T, e *Env) {
 		e.Res.Nontriv(bad.String() + remString(rem) + describe(rc, x))
 	}
 	e.Res.Sample("corrupted object " + bad.String() + " ; removed types " + remString(rem))
+}
+
+// stripElemTypes removes the ElemType of some list and map values below o (in place).
+func stripElemTypes(t *rapid.T, o *types.Object, depth int) {
+	for _, k := range sortedAttrKeys(o.Attrs) {
+		switch v := o.Attrs[k].(type) {
+		case types.List:
+			if rapid.IntRange(0, 2).Draw(t, "striplist") == 0 {
+				v.ElemType = nil
+				o.Attrs[k] = v
+			}
+		case types.Map:
+			if rapid.IntRange(0, 2).Draw(t, "stripmap") == 0 {
+				v.ElemType = nil
+				o.Attrs[k] = v
+			}
+		case types.Object:
+			if depth < 4 && !v.Null && !v.Unknown && v.Attrs != nil {
+				stripElemTypes(t, &v, depth+1)
+				o.Attrs[k] = v
+			}
+		}
+	}
+}
+
+func sortedAttrKeys(m map[string]attr.Value) []string {
+	ks := make([]string, 0, len(m))
+	for k := range m {
+		ks = append(ks, k)
+	}
+	sort.Strings(ks)
+	return ks
 }
 
 func min(a, b int) int {
